@@ -90,6 +90,36 @@ def replay_refuted(interp, contract, inst, model, pb, rng, tries):
     return last
 
 
+def replay_task_name(interp, contract, inst, pb, rng, tries=40):
+    """Replay for the Dask task-name rule: the real function on two different concrete inputs; the two lazy
+    results computed in ONE graph must equal each computed on its own (a name that does not determine its
+    content makes Dask treat them as one task)."""
+    import numpy as np
+    import dask
+    from .concrete import real_result
+    last = {"status": "skip", "why": "no pair of differing results drawn"}
+    for _ in range(tries):
+        try:
+            nm1, nm2 = ConcNamer(rng=rng), ConcNamer(rng=rng)
+            r1, r2 = real_result(interp, contract, inst, nm1, pb), real_result(interp, contract, inst, nm2, pb)
+            a1, a2 = getattr(r1, "data", r1), getattr(r2, "data", r2)
+            if not (hasattr(a1, "dask") and hasattr(a2, "dask")):
+                return {"status": "skip", "why": "result is not Dask-backed on this instance"}
+            w1, w2 = a1.compute(scheduler="synchronous"), a2.compute(scheduler="synchronous")
+            g1, g2 = dask.compute(a1, a2, scheduler="synchronous")
+            if w1.shape == w2.shape and np.array_equal(w1, w2, equal_nan=True):
+                continue
+            if not (np.array_equal(g1, w1, equal_nan=True) and np.array_equal(g2, w2, equal_nan=True)):
+                return {"status": "mismatch", "inputs": {"first": {k: str(v) for k, v in nm1.used.items()}, "second": {k: str(v) for k, v in nm2.used.items()}},
+                        "expected": "each of two lazily built results, computed together in one graph, equals that result computed alone",
+                        "observed": "computed together, one result is delivered for the other (same Dask key for different content)",
+                        "mismatches": ["dask.compute(r1, r2) != (r1.compute(), r2.compute())"]}
+            last = {"status": "ok"}
+        except Exception as e:
+            last = {"status": "skip", "why": f"replay error: {type(e).__name__}: {e}"}
+    return last
+
+
 def run_property(prop, tier, seed, root):
     from props import PROPS
     cfg = PROPS[prop]
@@ -196,7 +226,10 @@ def run_property(prop, tier, seed, root):
         chosen = items[0]
         for j, r in items[:6]:
             inst = next(i for i in c.instances if i.label == j["instance"])
-            rr = replay_refuted(interp, c, inst, r.get("model"), pb, rng, 25 if tier == "quick" else 200)
+            if "task-name-determined-by-content" in r["name"]:
+                rr = replay_task_name(interp, c, inst, pb, rng)
+            else:
+                rr = replay_refuted(interp, c, inst, r.get("model"), pb, rng, 25 if tier == "quick" else 200)
             if rr and rr.get("status") == "mismatch":
                 rep, chosen = rr, (j, r)
                 break
